@@ -214,6 +214,61 @@ func init() {
 		}
 		sort.Strings(sites)
 		c.Fact("oauth.tokenSource.assignments", sites)
+		// what ONE handler carries from one Authorize call to another (and between calls in flight together):
+		// the fields of the struct, and every statement of a method that assigns to one of them (directly or
+		// to an element of a map field). The concurrent model (`CHandler`) has exactly: the fixed configuration,
+		// the token source served; grantedScopes is the declared abstraction (scopes are not modelled).
+		fields := []string{}
+		writes := []string{}
+		for _, f := range c.load("auth") {
+			for _, d := range f.Decls {
+				switch x := d.(type) {
+				case *ast.GenDecl:
+					for _, sp := range x.Specs {
+						ts, ok := sp.(*ast.TypeSpec)
+						if !ok || ts.Name.Name != "AuthorizationCodeHandler" {
+							continue
+						}
+						if st, ok := ts.Type.(*ast.StructType); ok {
+							for _, fl := range st.Fields.List {
+								for _, n := range fl.Names {
+									fields = append(fields, n.Name+" "+c.Src(fl.Type))
+								}
+								if len(fl.Names) == 0 {
+									fields = append(fields, "(embedded) "+c.Src(fl.Type))
+								}
+							}
+						}
+					}
+				case *ast.FuncDecl:
+					if x.Body == nil || recvName(x) != "AuthorizationCodeHandler" {
+						continue
+					}
+					ast.Inspect(x.Body, func(n ast.Node) bool {
+						switch y := n.(type) {
+						case *ast.AssignStmt:
+							for _, l := range y.Lhs {
+								if t := c.Src(l); strings.HasPrefix(t, "h.") {
+									writes = append(writes, x.Name.Name+": "+t+" "+y.Tok.String())
+								}
+							}
+						case *ast.IncDecStmt:
+							if t := c.Src(y.X); strings.HasPrefix(t, "h.") {
+								writes = append(writes, x.Name.Name+": "+t+" "+y.Tok.String())
+							}
+						case *ast.CallExpr:
+							if id, ok := y.Fun.(*ast.Ident); ok && (id.Name == "delete" || id.Name == "clear") && len(y.Args) > 0 && strings.HasPrefix(c.Src(y.Args[0]), "h.") {
+								writes = append(writes, x.Name.Name+": "+id.Name+" "+c.Src(y.Args[0]))
+							}
+						}
+						return true
+					})
+				}
+			}
+		}
+		sort.Strings(writes)
+		c.Fact("oauth.handler.fields", fields)
+		c.Fact("oauth.handler.writes", writes)
 	})
 }
 
